@@ -444,7 +444,9 @@ func (r *FnRun) initOpaque(st *State, t types.Type, id string) {
 	case "sync.Map":
 		st.heap["syncmap#dom"] = r.rowReset(st, "syncmap#dom", id, "Bool", "false")
 	case "bytes.Buffer":
-		st.writeLeaf("buf#content", []string{id}, "Int", "0")
+		arr := st.allocRef()
+		st.writeLeaf("buf#arr", []string{id}, "Int", arr)
+		st.writeLeaf("bytes#content", []string{arr}, "Int", "0")
 	}
 }
 
@@ -1325,6 +1327,7 @@ func (r *FnRun) embeddedGhostFams(ms *modset, t types.Type) {
 			ms.fams["syncmap"] = true
 		case "bytes.Buffer":
 			ms.fams["buf"] = true
+			ms.fams["bytes"] = true
 		}
 		return
 	}
